@@ -4,6 +4,7 @@ package c11
 import (
 	"encoding/json"
 	"fmt"
+	"github.com/cedar-policy/cedar-go/internal/mapset"
 	"sort"
 	"strings"
 
@@ -311,6 +312,186 @@ func largeFamily() *core.Family {
 			}
 			if err != nil || !back.Equal(r1) {
 				t.Fail("record-json-roundtrip:large", in, "equal value", fmt.Sprint(err))
+			}
+			t.AddStates(1)
+			t.Nontrivial()
+			t.Sample(in)
+		},
+	}
+}
+
+// mapset (the set behind Entity.Parents and the evaluator's visited sets): every sequence
+// of <= 5 Add / Remove operations over {1,2,3} on a zero-value MapSet, every observable
+// compared with a Go-map model after each step; every pair of such sets of <= 3 steps
+// for Equal / Intersects in both directions and against the immutable view; EntityUIDSet
+// built from every sequence of <= 4 uids over a universe whose ids are shared across types.
+func mapsetFamily() *core.Family {
+	const nOps = 6 // Add 1..3, Remove 1..3
+	var seqs [][]int
+	var rec func(cur []int)
+	rec = func(cur []int) {
+		seqs = append(seqs, append([]int{}, cur...))
+		if len(cur) == 5 {
+			return
+		}
+		for o := 0; o < nOps; o++ {
+			rec(append(cur, o))
+		}
+	}
+	rec(nil)
+	uids := []types.EntityUID{types.NewEntityUID("A", "x"), types.NewEntityUID("B", "x"), types.NewEntityUID("A", "y"), types.NewEntityUID("A::B", "x")}
+	apply := func(seq []int) (*mapset.MapSet[int], map[int]bool, string) {
+		var s mapset.MapSet[int]
+		model := map[int]bool{}
+		bad := ""
+		for step, o := range seq {
+			item := o%3 + 1
+			if o < 3 {
+				if got, want := s.Add(item), !model[item]; got != want && bad == "" {
+					bad = fmt.Sprintf("step %d Add(%d) returned %v", step, item, got)
+				}
+				model[item] = true
+			} else {
+				if got, want := s.Remove(item), model[item]; got != want && bad == "" {
+					bad = fmt.Sprintf("step %d Remove(%d) returned %v", step, item, got)
+				}
+				delete(model, item)
+			}
+		}
+		return &s, model, bad
+	}
+	observe := func(s mapset.Container[int], all func() []int) string {
+		var ms []int
+		for i := 0; i <= 4; i++ {
+			if s.Contains(i) {
+				ms = append(ms, i)
+			}
+		}
+		a := all()
+		sort.Ints(a)
+		return fmt.Sprintf("len=%d contains=%v all=%v", s.Len(), ms, a)
+	}
+	modelObs := func(m map[int]bool) string {
+		var ms []int
+		for i := 0; i <= 4; i++ {
+			if m[i] {
+				ms = append(ms, i)
+			}
+		}
+		return fmt.Sprintf("len=%d contains=%v all=%v", len(ms), ms, ms)
+	}
+	n := int64(len(seqs))
+	return &core.Family{
+		Name: "mapset-model",
+		Desc: fmt.Sprintf("internal/mapset against a Go-map model: %d Add/Remove sequences of length <= 5 over {1,2,3} on a zero-value MapSet (return values, Len, Contains, All, Iterate with early break, Slice, JSON round trip, the Immutable view), Equal / Intersects between every pair of sequences of length <= 3, and EntityUIDSet from every uid sequence of length <= 4 with ids shared across types", len(seqs)),
+		N:    n,
+		Run: func(t *core.T, i int64) {
+			seq := seqs[i]
+			in := fmt.Sprintf("ops %v (0-2: Add 1-3, 3-5: Remove 1-3)", seq)
+			s, model, bad := apply(seq)
+			if bad != "" {
+				t.Fail("mapset-return-value", in, "as the map model", bad)
+			}
+			want := modelObs(model)
+			collect := func(it func(func(int) bool)) []int {
+				var out []int
+				it(func(x int) bool { out = append(out, x); return true })
+				return out
+			}
+			views := map[string]string{
+				"All":     observe(s, func() []int { return collect(s.All()) }),
+				"Iterate": observe(s, func() []int { return collect(s.Iterate) }),
+				"Slice":   observe(s, func() []int { return append([]int{}, s.Slice()...) }),
+			}
+			im := mapset.Immutable(s.Slice()...)
+			views["Immutable"] = observe(im, func() []int { return collect(im.All()) })
+			js, err := json.Marshal(s)
+			var back mapset.MapSet[int]
+			if err == nil {
+				err = json.Unmarshal(js, &back)
+			}
+			if err != nil {
+				t.Fail("mapset-json", in, "round trips", err.Error())
+			} else {
+				views["JSON round trip"] = observe(back, func() []int { return collect(back.All()) })
+			}
+			var imBack mapset.ImmutableMapSet[int]
+			if err := json.Unmarshal(js, &imBack); err != nil {
+				t.Fail("mapset-json", in, "round trips (immutable)", err.Error())
+			} else {
+				views["Immutable JSON round trip"] = observe(imBack, func() []int { return collect(imBack.All()) })
+			}
+			for name, got := range views {
+				if got != want {
+					t.Fail("mapset-observable:"+name, in, want, got)
+				}
+			}
+			// early break: at most one element is delivered
+			cnt := 0
+			s.Iterate(func(int) bool { cnt++; return false })
+			for range s.All() {
+				cnt++
+				break
+			}
+			if lim := 2; cnt > lim || (len(model) > 0 && cnt != 2) {
+				t.Fail("mapset-early-break", in, "one element per interrupted iteration", fmt.Sprint(cnt))
+			}
+			if len(seq) <= 3 {
+				for _, seq2 := range seqs {
+					if len(seq2) > 3 {
+						continue
+					}
+					s2, model2, _ := apply(seq2)
+					eq := len(model) == len(model2)
+					inter := false
+					for k := range model {
+						if !model2[k] {
+							eq = false
+						} else {
+							inter = true
+						}
+					}
+					im2 := mapset.Immutable(s2.Slice()...)
+					if s.Equal(s2) != eq || s.Equal(im2) != eq || im.Equal(s2) != eq || im.Equal(im2) != eq {
+						t.Fail("mapset-equal", fmt.Sprintf("%s vs %v", in, seq2), fmt.Sprint(eq), "differs")
+					}
+					if s.Intersects(s2) != inter || im.Intersects(im2) != inter || s2.Intersects(im) != inter {
+						t.Fail("mapset-intersects", fmt.Sprintf("%s vs %v", in, seq2), fmt.Sprint(inter), "differs")
+					}
+				}
+			}
+			// EntityUIDSet from the uid sequence encoded by the same index (length <= 4)
+			if len(seq) <= 4 {
+				var us []types.EntityUID
+				mu := map[types.EntityUID]bool{}
+				for _, o := range seq {
+					u := uids[o%len(uids)]
+					us = append(us, u)
+					mu[u] = true
+				}
+				es := types.NewEntityUIDSet(us...)
+				if es.Len() != len(mu) {
+					t.Fail("entityuidset-len", fmt.Sprint(us), fmt.Sprint(len(mu)), fmt.Sprint(es.Len()))
+				}
+				for _, u := range uids {
+					if es.Contains(u) != mu[u] {
+						t.Fail("entityuidset-contains", fmt.Sprintf("%v contains %v", us, u), fmt.Sprint(mu[u]), fmt.Sprint(es.Contains(u)))
+					}
+				}
+				if len(us) > 0 {
+					us[0] = types.NewEntityUID("Z", "mutated")
+					if es.Contains(us[0]) || es.Len() != len(mu) {
+						t.Fail("entityuidset-aliases-input", fmt.Sprint(us), "unchanged", "changed with the input slice")
+					}
+				}
+				ejs, err := json.Marshal(es)
+				var eback types.EntityUIDSet
+				if err == nil {
+					err = json.Unmarshal(ejs, &eback)
+				}
+				if err != nil || !eback.Equal(es) || !es.Equal(eback) {
+					t.Fail("entityuidset-json", string(ejs), "round trips to an equal set", fmt.Sprint(err))
+				}
 			}
 			t.AddStates(1)
 			t.Nontrivial()
@@ -739,9 +920,9 @@ func Check() *core.Check {
 		Assumptions: []string{"the reference equality is structural and type-distinguishing (Cedar ==)"},
 		Families: func(tier string) []*core.Family {
 			if tier == "thorough" {
-				return []*core.Family{closureFamily(), recordFamily(), setFamily(6), pairFamily(3), largeFamily(), immutability(7)}
+				return []*core.Family{closureFamily(), recordFamily(), setFamily(6), pairFamily(3), largeFamily(), mapsetFamily(), immutability(7)}
 			}
-			return []*core.Family{closureFamily(), recordFamily(), setFamily(5), pairFamily(2), largeFamily(), immutability(5)}
+			return []*core.Family{closureFamily(), recordFamily(), setFamily(5), pairFamily(2), largeFamily(), mapsetFamily(), immutability(5)}
 		},
 	}
 }
